@@ -6,23 +6,36 @@ import (
 	"fmt"
 )
 
-// PopulateDeltaRequires is user code under explicit_requires: it copies the
-// required field out of the representation it is handed (which must be the
-// one the entity was looked up from).
-func (ec *executionContext) PopulateDeltaRequires(ctx context.Context, entity *Delta, reps map[string]any) error {
-	switch v := reps["size"].(type) {
+func fedNum(v any) (int, error) {
+	switch v := v.(type) {
 	case json.Number:
 		n, err := v.Int64()
-		if err != nil {
-			return err
-		}
-		entity.Size = int(n)
+		return int(n), err
 	case int64:
-		entity.Size = int(v)
+		return int(v), nil
 	case int:
-		entity.Size = v
-	default:
-		return fmt.Errorf("representation without size: %T", reps["size"])
+		return v, nil
+	}
+	return 0, fmt.Errorf("not a number: %T", v)
+}
+
+// PopulateDeltaRequires is user code under explicit_requires: it copies the
+// required fields out of the representation it is handed (which must be the
+// one the entity was looked up from).
+func (ec *executionContext) PopulateDeltaRequires(ctx context.Context, entity *Delta, reps map[string]any) error {
+	var err error
+	if entity.Size, err = fedNum(reps["size"]); err != nil {
+		return fmt.Errorf("representation without size: %w", err)
+	}
+	d, ok := reps["dims"].(map[string]any)
+	if !ok {
+		return fmt.Errorf("representation without dims: %T", reps["dims"])
+	}
+	if entity.Dims.Width, err = fedNum(d["width"]); err != nil {
+		return err
+	}
+	if entity.Dims.Height, err = fedNum(d["height"]); err != nil {
+		return err
 	}
 	return nil
 }
